@@ -194,6 +194,8 @@ class MemFS:
 
     # -- file API
     def open(self, path, mode="r", *a, **kw):
+        if isinstance(path, str) and "\0" in path:
+            raise ValueError("embedded null byte")
         path = self.ab(path)
         if not self.ismem(path):
             return builtins.open(path, mode, *a, **kw)
@@ -430,6 +432,9 @@ class _W:
             raise Crash()
         fs.ops += 1
         fs.clock += 1
+        with notrace():
+            if type(data) is str:
+                data.encode("utf-8")  # (text files of the repo are UTF-8: a lone surrogate raises UnicodeEncodeError)
         fs.files[self.path] = fs.files.get(self.path, "") + data
         fs.mtime[self.path] = fs.clock
         fs.journal.append(("write", self.path))
